@@ -1,1 +1,409 @@
-CHECKS = {}
+"""Engine D properties: C11, C14, C17 — the observable is the verdict of the real compiler on
+generated programs (compile probes), plus run-time TypeId comparisons for C17."""
+import json
+import os
+import random
+import re
+import shutil
+
+import common
+from common import Inconclusive
+
+DEPS_DIR = os.path.join(common.WORK, "probe-deps")
+DEPS_TARGET = os.path.join(common.WORK, "target-probe-deps")
+
+
+def probe_deps():
+    """Builds truc_runtime (hooks off), static_assertions and vtypes as rlibs; returns
+    (deps dir, {crate: rlib})."""
+    os.makedirs(os.path.join(DEPS_DIR, "src"), exist_ok=True)
+    cargo = """[package]
+name = "probe_deps"
+version = "0.1.0"
+edition = "2021"
+
+[workspace]
+
+[dependencies]
+vtypes = { path = "/verif/harness/vtypes" }
+truc_runtime = { path = "/repo/truc_runtime" }
+static_assertions = "1"
+serde = "1"
+"""
+    def put(path, text):
+        if not os.path.exists(path) or open(path).read() != text:
+            open(path, "w").write(text)
+    put(os.path.join(DEPS_DIR, "Cargo.toml"), cargo)
+    put(os.path.join(DEPS_DIR, "src", "lib.rs"), "pub fn nothing() {}\n")
+    os.makedirs(os.path.join(DEPS_DIR, ".cargo"), exist_ok=True)
+    put(os.path.join(DEPS_DIR, ".cargo", "config.toml"), "[net]\noffline = true\n")
+    if not os.path.exists(os.path.join(DEPS_DIR, "Cargo.lock")):
+        shutil.copy(os.path.join(common.HARNESS, "Cargo.lock"), os.path.join(DEPS_DIR, "Cargo.lock"))
+    env = dict(common.ENV)
+    env["CARGO_TARGET_DIR"] = DEPS_TARGET
+    with common.Lock("probe-deps"):
+        rc, out, err = common.sh(["cargo", "build", "--offline", "--message-format=json"], cwd=DEPS_DIR, env=env, timeout=1800)
+    if rc != 0:
+        raise Inconclusive("probe dependencies do not build: %s" % (err or "")[-600:])
+    rlibs = {}
+    for line in out.splitlines():
+        try:
+            m = json.loads(line)
+        except Exception:
+            continue
+        if m.get("reason") == "compiler-artifact":
+            name = m["target"]["name"].replace("-", "_")
+            for f in m.get("filenames", []):
+                if f.endswith(".rlib"):
+                    rlibs[name] = f
+    for need in ("truc_runtime", "static_assertions", "vtypes"):
+        if need not in rlibs:
+            raise Inconclusive("rlib of %s not found" % need)
+    return os.path.join(DEPS_TARGET, "debug", "deps"), rlibs
+
+
+def compile_probe(deps, rlibs, path, outdir):
+    base = os.path.basename(path)[:-3]
+    cmd = ["rustc", "--edition", "2021", "--crate-type", "lib", "--crate-name", base, "--emit=metadata", "-o", os.path.join(outdir, base + ".rmeta"),
+           "-L", "dependency=" + deps, "--error-format=short", "--cap-lints", "allow"]
+    for k in ("truc_runtime", "static_assertions", "vtypes"):
+        cmd += ["--extern", "%s=%s" % (k, rlibs[k])]
+    cmd.append(path)
+    return cmd
+
+
+def run_probes(ctx, kind, quick):
+    binary = common.cargo_build("layoutmon", "fastdebug")
+    d = os.path.join(common.WORK, "probes-%s-%s-%d" % (kind, ctx.tier, ctx.seed))
+    rc, out, err = common.sh([binary, "emit-probes", "--kind", kind, "--quick", "1" if quick else "0", "--seed", str(ctx.seed), "--out-dir", d], timeout=900)
+    if rc != 0:
+        raise Inconclusive("probe emitter failed: %s" % (err or "")[-500:])
+    manifest = json.load(open(os.path.join(d, "manifest.json")))
+    deps, rlibs = probe_deps()
+    outdir = os.path.join(d, "out")
+    os.makedirs(outdir, exist_ok=True)
+    jobs = [(m["file"], compile_probe(deps, rlibs, os.path.join(d, m["file"]), outdir), None, None) for m in manifest]
+    results = {}
+    for (lab, rc, out, err, secs) in ctx.run_parallel(jobs, 600):
+        results[lab] = (rc, err or "")
+    shutil.rmtree(outdir, ignore_errors=True)
+    return d, manifest, results
+
+
+def codes(err):
+    return sorted(set(re.findall(r"error\[(E\d+)\]", err)))
+
+
+def run_c11(ctx):
+    d, manifest, results = run_probes(ctx, "c11", ctx.quick)
+    # controls first: a cell whose control does not compile decides nothing
+    bad_controls = 0
+    for m in manifest:
+        rc, err = results.get(m["file"], (None, ""))
+        ctx.evaluations += 1
+        if rc is None:
+            ctx.inconclusive.append("probe %s timed out" % m["file"])
+            continue
+        if m["expect_compile"]:
+            ctx.count("controls_compiled" if rc == 0 else "controls_rejected", 1)
+            if rc != 0:
+                bad_controls += 1
+                if bad_controls <= 3:
+                    ctx.inconclusive.append("control does not compile (%s): %s" % (m["description"], err.strip().splitlines()[:2]))
+            continue
+        ctx.distinct += 1
+        c = codes(err)
+        if rc == 0:
+            ctx.count("perturbed_probes_that_compiled", 1)
+            ctx.violation("wrong-type-information-compiled", "%s: the generated module compiles" % m["description"], m["signature"],
+                          {"probe": os.path.join(d, m["file"]), "description": m["description"],
+                           "cmd": "rustc --edition 2021 --crate-type lib --emit=metadata (see runner/props_probe.py) %s" % os.path.join(d, m["file"])})
+        elif "E0080" in c or "E0277" in c:
+            ctx.count("perturbed_probes_rejected", 1)
+            for code in c:
+                ctx.count("rejections_by_code." + code, 1)
+        else:
+            ctx.count("perturbed_probes_rejected_for_another_reason", 1)
+            ctx.inconclusive.append("probe rejected, but not by a size/alignment assertion or a Copy bound (%s): %s" % (m["description"], err.strip().splitlines()[:2]))
+        if len(ctx.samples) < 6 and ctx.evaluations % 41 == 0:
+            ctx.samples.append("%s -> %s %s" % (m["description"], "compiles" if rc == 0 else "rejected", c))
+    ctx.subruns.append({"engine": "rustc --emit=metadata on generate() output", "probes": len(manifest), "dir": d})
+
+
+def run_c14(ctx):
+    d, manifest, results = run_probes(ctx, "c14", True)
+    for m in manifest:
+        rc, err = results.get(m["file"], (None, ""))
+        ctx.evaluations += 1
+        if rc is None:
+            ctx.inconclusive.append("probe %s timed out" % m["file"])
+            continue
+        c = codes(err)
+        if m["expect_compile"]:
+            ctx.count("converse_probes", 1)
+            if rc != 0:
+                if "E0277" in c and ("Send" in err or "Sync" in err or "cannot be sent" in err or "cannot be shared" in err):
+                    ctx.violation("thread-safe-record-not-sendable-or-shareable", "%s: rejected although every field type has the trait: %s" % (m["description"], err.strip().splitlines()[:1]),
+                                  m["signature"], {"probe": os.path.join(d, m["file"]), "description": m["description"]})
+                else:
+                    ctx.inconclusive.append("probe that must compile fails for another reason (%s): %s" % (m["description"], err.strip().splitlines()[:2]))
+            else:
+                ctx.count("converse_probes_compiled", 1)
+        else:
+            ctx.distinct += 1
+            ctx.count("only_if_probes", 1)
+            if rc == 0:
+                ctx.violation("record-has-an-auto-trait-a-field-lacks", "%s: accepted by the compiler" % m["description"], m["signature"],
+                              {"probe": os.path.join(d, m["file"]), "description": m["description"]})
+            else:
+                ctx.count("only_if_probes_rejected", 1)
+        if len(ctx.samples) < 6 and ctx.evaluations % 13 == 0:
+            ctx.samples.append("%s -> %s" % (m["description"], "compiles" if rc == 0 else "rejected %s" % c))
+    ctx.subruns.append({"engine": "rustc --emit=metadata on generate() output + `fn requires<T: Send|Sync>()`", "probes": len(manifest), "dir": d})
+
+
+# ---- C17 -------------------------------------------------------------------------------------
+
+BASE = ["u8", "u32", "i64", "usize", "f64", "bool", "char", "()", "String", "vtypes::Plain", "vtypes::nested::Gen<u8>",
+        "vtypes::nested::deeper::Choice", "vtypes::option::Option<u8>", "vtypes::string::String", "vtypes::vec::Vec<u16>",
+        "vtypes::boxed::Box<bool>", "vtypes::result::Result<u8, String>", "Box<str>"]
+UNARY = ["Box<{}>", "Vec<{}>", "Option<{}>", "({},)", "[{}; 3]", "[{}; 0]", "Box<[{}]>", "vtypes::nested::Gen<{}>", "vtypes::option::Option<{}>",
+         "vtypes::vec::Vec<{}>", "vtypes::boxed::Box<{}>"]
+BINARY = ["Result<{}, {}>", "({}, {})", "vtypes::result::Result<{}, {}>"]
+TERNARY = ["({}, {}, {})"]
+
+
+def grammar(ctx):
+    rnd = random.Random(ctx.seed * 7919 + 17)
+    d0 = list(BASE)
+    d1 = [u.format(t) for u in UNARY for t in d0] + [b.format(t, s) for b in BINARY for t in d0 for s in d0]
+    types = d0 + d1
+    pool1 = d0 + d1
+    if ctx.quick:
+        n2, n3 = 1200, 500
+    else:
+        # depth 2 complete for the unary constructors, sampled for the others
+        types += [u.format(t) for u in UNARY for t in d1]
+        n2, n3 = 6000, 8000
+    def pick(pool):
+        return pool[rnd.randrange(len(pool))]
+    d2 = []
+    for _ in range(n2):
+        k = rnd.randrange(10)
+        if k < 4:
+            d2.append(pick(UNARY).format(pick(d1)))
+        elif k < 8:
+            d2.append(pick(BINARY).format(pick(pool1), pick(pool1)))
+        else:
+            d2.append(pick(TERNARY).format(pick(pool1), pick(d0), pick(pool1)))
+    types += d2
+    pool2 = pool1 + d2
+    for _ in range(n3):
+        k = rnd.randrange(10)
+        if k < 5:
+            t = pick(UNARY).format(pick(d2))
+        elif k < 9:
+            t = pick(BINARY).format(pick(pool2), pick(pool2))
+        else:
+            t = pick(TERNARY).format(pick(pool2), pick(pool2), pick(d0))
+        if rnd.randrange(4) == 0:
+            t = pick(UNARY).format(t)
+        if len(t) < 400:
+            types.append(t)
+    seen = set()
+    out = []
+    for t in types:
+        if t not in seen:
+            seen.add(t)
+            out.append(t)
+    return out
+
+
+def depth(t):
+    d = m = 0
+    for ch in t:
+        if ch in "<([":
+            d += 1
+            m = max(m, d)
+        elif ch in ">)]":
+            d -= 1
+    return m
+
+
+CARGO_STAGE = """[package]
+name = "{name}"
+version = "0.1.0"
+edition = "2021"
+
+[workspace]
+
+[dependencies]
+vtypes = {{ path = "/verif/harness/vtypes" }}
+{extra}
+[profile.dev]
+debug = 0
+"""
+
+STAGE1_HEAD = """// C17 stage 1: what name does truc record for each type, and how does a type table answer
+// when the type is looked up under several spellings?
+use truc::record::type_resolver::{HostTypeResolver, StaticTypeResolver, TypeInfo, TypeResolver};
+fn esc(s: &str) -> String { s.replace('\\t', " ") }
+fn p<T: 'static>(idx: usize, literal: &str) {
+    let info = HostTypeResolver.type_info::<T>();
+    let mut problems: Vec<String> = Vec::new();
+    if info.size != std::mem::size_of::<T>() || info.align != std::mem::align_of::<T>() {
+        problems.push(format!("host resolver answers {}/{}", info.size, info.align));
+    }
+    let mut table = StaticTypeResolver::new();
+    table.add_type::<T>();
+    let full = std::any::type_name::<T>().to_owned();
+    let strip = |s: &str| s.chars().filter(|c| !c.is_whitespace()).collect::<String>();
+    let spellings = [info.name.clone(), full.clone(), strip(&info.name), strip(&full), info.name.replace(' ', "  "), literal.to_owned(), strip(literal)];
+    for s in spellings.iter() {
+        match std::panic::catch_unwind(|| table.dynamic_type_info(s)) {
+            Ok(d) => {
+                let want = TypeInfo { name: info.name.clone(), size: info.size, align: info.align };
+                if d.info != want || d.allow_uninit {
+                    problems.push(format!("lookup {:?} answers {:?}", s, d));
+                }
+            }
+            Err(_) => problems.push(format!("lookup {:?} fails", s)),
+        }
+    }
+    match std::panic::catch_unwind(|| table.type_info::<T>()) {
+        Ok(i) if i == info => {}
+        _ => problems.push("typed lookup differs".to_owned()),
+    }
+    println!("{}\\t{}\\t{}\\t{}", idx, esc(literal), esc(&info.name), esc(&problems.join(" | ")));
+}
+fn main() {
+    std::panic::set_hook(Box::new(|_| {}));
+"""
+
+STAGE2_HEAD = """// C17 stage 2: the recorded name, written in another crate, must denote the same type.
+#![allow(unused_parens, unused_imports)]
+use std::any::TypeId;
+fn check<A: 'static + ?Sized, B: 'static + ?Sized>(idx: usize) {
+    if TypeId::of::<A>() == TypeId::of::<B>() { println!("{}\\tsame", idx); } else { println!("{}\\tDIFFERENT\\t{}\\t{}", idx, std::any::type_name::<A>(), std::any::type_name::<B>()); }
+}
+fn main() {
+"""
+
+
+def write_crate(d, name, extra, main_text):
+    os.makedirs(os.path.join(d, "src"), exist_ok=True)
+    os.makedirs(os.path.join(d, ".cargo"), exist_ok=True)
+    def put(path, text):
+        if not os.path.exists(path) or open(path).read() != text:
+            open(path, "w").write(text)
+    put(os.path.join(d, "Cargo.toml"), CARGO_STAGE.format(name=name, extra=extra))
+    put(os.path.join(d, ".cargo", "config.toml"), "[net]\noffline = true\n")
+    put(os.path.join(d, "src", "main.rs"), main_text)
+    if not os.path.exists(os.path.join(d, "Cargo.lock")):
+        shutil.copy(os.path.join(common.HARNESS, "Cargo.lock"), os.path.join(d, "Cargo.lock"))
+
+
+def run_c17(ctx):
+    types = grammar(ctx)
+    root = os.path.join(common.WORK, "tn-%s-%d" % (ctx.tier, ctx.seed))
+    chunk = 1500
+    chunks = [types[i:i + chunk] for i in range(0, len(types), chunk)]
+    env = dict(common.ENV)
+    env["CARGO_TARGET_DIR"] = os.path.join(common.WORK, "target-tn")
+    # ---- stage 1 (links truc) ----
+    recorded = {}
+    jobs = []
+    for ci, ch in enumerate(chunks):
+        d = os.path.join(root, "s1_%d" % ci)
+        body = "".join("    p::<%s>(%d, %s);\n" % (t, ci * chunk + i, json.dumps(t)) for i, t in enumerate(ch))
+        write_crate(d, "tn_s1_%d" % ci, 'truc = { path = "/repo/truc" }\n', STAGE1_HEAD + body + "}\n")
+        jobs.append(("s1_%d" % ci, ["cargo", "run", "--offline", "-q"], d, env))
+    with common.Lock("tn-build"):
+        res = ctx.run_parallel(jobs, 3600, max_workers=4)
+    for (lab, rc, out, err, secs) in res:
+        if rc != 0:
+            raise Inconclusive("stage 1 crate %s failed (status %s): %s" % (lab, rc, "\n".join((err or "").splitlines()[-12:])))
+        for line in out.splitlines():
+            parts = line.split("\t")
+            if len(parts) >= 4 and parts[0].isdigit():
+                recorded[int(parts[0])] = (parts[1], parts[2], parts[3])
+    if len(recorded) != len(types):
+        ctx.inconclusive.append("stage 1 answered for %d of %d types" % (len(recorded), len(types)))
+    for idx, (lit, name, problems) in sorted(recorded.items()):
+        ctx.evaluations += 1
+        if depth(lit) >= 2:
+            ctx.distinct += 1
+        ctx.count("type_table_lookups", 7)
+        if problems:
+            ctx.violation("type-table-lookup", "type %s recorded as %r: %s" % (lit, name, problems), "C17 lookup %s" % lit, {"type": lit, "recorded": name, "problems": problems})
+    # ---- stage 2 (does not link truc): recorded names compiled in another crate ----
+    pending = dict(recorded)
+    for attempt in range(6):
+        jobs = []
+        line_of = {}
+        for ci in range(len(chunks)):
+            d = os.path.join(root, "s2_%d" % ci)
+            lines = []
+            for idx in range(ci * chunk, min((ci + 1) * chunk, len(types))):
+                if idx in pending:
+                    lit, name, _ = pending[idx]
+                    line_of[(ci, len(STAGE2_HEAD.splitlines()) + len(lines) + 1)] = idx
+                    lines.append("    check::<%s, %s>(%d);\n" % (lit, name, idx))
+            write_crate(d, "tn_s2_%d" % ci, "", STAGE2_HEAD + "".join(lines) + "}\n")
+            jobs.append((ci, ["cargo", "run", "--offline", "-q"], d, env))
+        with common.Lock("tn-build"):
+            res = ctx.run_parallel(jobs, 3600, max_workers=4)
+        failed = False
+        for (ci, rc, out, err, secs) in res:
+            if rc != 0:
+                failed = True
+                # names that do not even compile: isolate by line number and retry without them
+                bad_lines = set(int(x) for x in re.findall(r"src/main\.rs:(\d+):", err or ""))
+                hit = False
+                for ln in bad_lines:
+                    idx = line_of.get((ci, ln))
+                    if idx is not None and idx in pending:
+                        lit, name, _ = pending.pop(idx)
+                        hit = True
+                        first = [l for l in (err or "").splitlines() if "src/main.rs:%d:" % ln in l][:1]
+                        ctx.violation("recorded-name-does-not-compile", "type %s is recorded as %r, which the compiler rejects elsewhere: %s" % (lit, name, first),
+                                      "C17 name %s" % lit, {"type": lit, "recorded": name})
+                if not hit:
+                    raise Inconclusive("stage 2 crate %s failed for another reason: %s" % (ci, "\n".join((err or "").splitlines()[-12:])))
+                continue
+            for line in out.splitlines():
+                parts = line.split("\t")
+                if len(parts) >= 2 and parts[0].isdigit():
+                    idx = int(parts[0])
+                    ctx.count("names_compared_by_TypeId", 1)
+                    if parts[1] != "same":
+                        lit, name, _ = recorded[idx]
+                        ctx.violation("recorded-name-denotes-another-type", "type %s is recorded as %r, which denotes %s" % (lit, name, parts[3] if len(parts) > 3 else "?"),
+                                      "C17 name %s" % lit, {"type": lit, "recorded": name})
+                    pending.pop(idx, None)
+        if not failed:
+            break
+    for t in types[:2] + types[len(BASE) + 40:len(BASE) + 42] + types[-3:]:
+        ctx.samples.append(t)
+    ctx.count("max_nesting_depth", max(depth(t) for t in types))
+    ctx.subruns.append({"engine": "two generated crates per 1500 types: stage 1 links truc (recorded names, table lookups under 7 spellings), stage 2 compares TypeId of literal and recorded name",
+                        "types": len(types)})
+
+
+def replay(path):
+    d = json.load(open(path))
+    print(json.dumps({k: d[k] for k in d if k in ("description", "probe", "type", "recorded", "problems", "cmd")}, indent=1))
+    return 0
+
+
+CHECKS = {
+    "C11": {"run": run_c11, "replay": replay, "level": "exploration",
+            "assumptions": ["the observable is the compiler's verdict (stable toolchain of this image) on the generator's real output", "a probe rejected for a reason other than a size/alignment assertion or a Copy bound decides nothing (inconclusive)"],
+            "rule": "probes = (palette type x first/later variant x alone/next to an unperturbed datum of the same type x perturbation of the recorded size (-1 unit, -1 byte, +1 unit) or alignment (/2, x2) or may-be-uninitialised on a non-Copy type) through add_datum_override and through a stale pre-computed table, each cell with an unperturbed control that must compile; non-trivial = perturbed probe (controls are not counted)"},
+    "C14": {"run": run_c14, "replay": replay, "level": "exploration",
+            "assumptions": ["expected auto traits of the field types are the standard library's (Rc: neither, Cell/RefCell/Receiver: Send only, MutexGuard: Sync only, raw pointer: neither)"],
+            "rule": "probes = (6 modules x every variant x {Send, Sync} x {published capacity, +8}); expectation computed per variant from the field types it holds; non-trivial = probe where some field lacks the trait (the only-if direction); the remaining probes check the converse"},
+    "C17": {"run": run_c17, "replay": replay, "level": "exploration",
+            "assumptions": ["types are drawn from a grammar over primitives, String, Box, Vec, Option, Result, tuples, arrays, boxed slices and user-crate types (some of them named like the standard ones)", "TypeId equality is the oracle for 'denotes the same type'"],
+            "rule": "types = complete grammar at depth <= 1 (thorough: unary constructors complete at depth 2) + seeded samples at depth 2-4; for each type: recorded name compiled in another crate and compared by TypeId, and a table holding the type looked up under 7 spellings; non-trivial = nesting depth >= 2"},
+}
